@@ -1,5 +1,6 @@
 import EupsModel.Lemmas.Vro
 import EupsModel.Lemmas.VroSelect
+import EupsModel.Lemmas.VroC10
 /-! C03 — the version chosen is the one the Version Resolution Order designates.
 Property theorems only; the model is `Model/Vro.lean`, helper lemmas are in `Lemmas/Vro.lean`. -/
 namespace EupsModel.C03
@@ -23,7 +24,7 @@ def exDb : Db :=
   [ { decls := [⟨sP, v10, sLinux⟩], tags := [⟨sStable, sP, sLinux, v10⟩] },
     { decls := [⟨sP, v10, sLinux⟩, ⟨sP, v20, sLinux⟩, ⟨sP, v30, sGeneric⟩],
       tags := [⟨sCurrent, sP, sLinux, v20⟩, ⟨sCurrent, sP, sGeneric, v30⟩] } ]
-def exCtx : Ctx := mkCtx simpleOrd [sCurrent, sStable, sBeta] exDb .files sLinux []
+def exCtx : Ctx := mkCtx simpleOrd [sCurrent, sStable, sBeta] exDb .files [sLinux, sGeneric] []
 def exReq (version : Option Str) (depth : Nat) : Req :=
   { name := sP, version := version, vexpr := none, depth := depth, flavor := sLinux,
     ignoreVersions := false, already := none }
@@ -261,9 +262,11 @@ example : isVT kVersion = true ∧ (exReq (some v10) 1).named = some v10 ∧ isE
 /-- An expression entry yields the highest declared version satisfying the expression: when some
 stack declares, for the flavor, a version that satisfies it, the `versionExpr` entry answers with a
 satisfying version, taken from the first stack in which it satisfies, such that no satisfying
-version anywhere on the path is newer.  (Needs the order properties of `version_cmp`, C10.) -/
-theorem C03_expr_entry_is_max (C : Ctx) (g : GoodOrd C.ord.cmp) (r : Req) (v : Str) (post : List Str)
-    (hv : r.named = some v) (hex : isExpr v = .ok true)
+version anywhere on the path is newer.  (`GoodOrdOn P`: the order properties of `version_cmp` on a class
+`P` of names containing every declared version name; `C03_expr_entry_is_max_conv` instantiates it
+with C10's comparator on conventional names.) -/
+theorem C03_expr_entry_is_max (C : Ctx) (P : Str → Prop) (g : GoodOrdOn P C.ord.cmp) (hP : DeclIn P C.db)
+    (r : Req) (v : Str) (post : List Str) (hv : r.named = some v) (hex : isExpr v = .ok true)
     (hsat : ∃ st ∈ C.db, ∃ w, declared st r.name w r.flavor = true ∧ C.ord.vmatch w v = true) :
     ∃ p, lookupEntry C r kVersionExpr post = .ok (.hit p kVersionExpr) ∧
       p.flavor = r.flavor ∧
@@ -281,7 +284,7 @@ theorem C03_expr_entry_is_max (C : Ctx) (g : GoodOrd C.ord.cmp) (r : Req) (v : S
     obtain ⟨st, hst, w, h1, h2⟩ := hsat
     exact absurd ⟨h1, h2⟩ (lookupExpr_none hl st hst w)
   | some p =>
-    obtain ⟨h1, ⟨st, h2, h3, h4⟩, h5⟩ := lookupExpr_some g hl
+    obtain ⟨h1, ⟨st, h2, h3, h4⟩, h5⟩ := lookupExpr_some g hP hl
     refine ⟨p, rfl, h1, ⟨st, h2, h3.1, h3.2, h4⟩, ?_⟩
     intro j st' w hj hd hm
     exact h5 j st' w hj ⟨hd, hm⟩
@@ -321,7 +324,7 @@ theorem C03_expr_at_version_entry (C : Ctx) (r : Req) (e v : Str) (post : List S
 /-- the order hypotheses are satisfiable: any comparison by a numeric key is a `GoodOrd`
 (here: the decimal value of the name) -/
 example : GoodOrd (fun a b => (Str.toNat a : Int) - Str.toNat b) :=
-  ⟨fun a => by simp, fun a b h => by omega, fun a b c h1 h2 => by omega⟩
+  ⟨fun a _ => by simp, fun a b _ _ h => by omega, fun a b c _ _ _ h1 h2 => by omega⟩
 
 /-- ... and so is the dotted-decimal order the correspondence runs and the examples use -/
 example : GoodOrd exCtx.ord.cmp := simpleCmp_good
@@ -334,8 +337,8 @@ example : lookupEntry exCtx (exReq (some [62, 61, 32, 50, 46, 48]) 1) kVersionEx
 /-- `latest` is not "the first stack that has the tag": it yields a declared version such that no
 version declared anywhere on the path (for the flavor) is newer; it says "continue" only when
 nothing is declared.  (`latest` reads `Ctx.dbLatest`: `_findLatestProduct` ignores `noCache`.) -/
-theorem C03_latest_entry_is_max (C : Ctx) (g : GoodOrd C.ord.cmp) (r : Req) (post : List Str)
-    (hl : C.recognized kLatest = true) :
+theorem C03_latest_entry_is_max (C : Ctx) (P : Str → Prop) (g : GoodOrdOn P C.ord.cmp) (hP : DeclIn P C.dbLatest)
+    (r : Req) (post : List Str) (hl : C.recognized kLatest = true) :
     (∀ p reason, lookupEntry C r kLatest post = .ok (.hit p reason) →
       reason = kLatest ∧ p.flavor = r.flavor ∧
       (∃ st, C.dbLatest[p.stack]? = some st ∧ declared st r.name p.version r.flavor = true) ∧
@@ -358,17 +361,68 @@ theorem C03_latest_entry_is_max (C : Ctx) (g : GoodOrd C.ord.cmp) (r : Req) (pos
   | none =>
     refine ⟨by intro p reason h; simp at h, ?_, by simp⟩
     intro _
-    exact lookupLatest_none g hll
+    exact lookupLatest_none g hP hll
   | some q =>
     refine ⟨?_, by intro h; simp at h, by simp⟩
     intro p reason h
     simp only [Except.ok.injEq, Outcome.hit.injEq] at h
     obtain ⟨rfl, rfl⟩ := h
-    obtain ⟨h1, h2, h3⟩ := lookupLatest_some g hll
+    obtain ⟨h1, h2, h3⟩ := lookupLatest_some g hP hll
     exact ⟨rfl, h1, h2, h3⟩
 
 /-- non-vacuity: in the example database the newest Linux version, 2.0, is in the second stack -/
 example : lookupEntry exCtx (exReq none 0) kLatest [] = .ok (.hit ⟨v20, sLinux, 1⟩ kLatest) := by decide
+
+/-! ## with C10's comparator: unconditional on conventional version names -/
+
+/-- `C03_expr_entry_is_max` with the model of `version_cmp` / `version_match` that C10 verifies
+(`c10Ord`), for databases whose version names are conventional (`convName`): no hypothesis on the
+order is left — C10's `C10_refl`, `C10_conv_total`, `C10_conv_trans` discharge it. -/
+theorem C03_expr_entry_is_max_conv (C : Ctx) (hord : C.ord = c10Ord) (hconv : DeclIn ConvName C.db)
+    (r : Req) (v : Str) (post : List Str) (hv : r.named = some v) (hex : isExpr v = .ok true)
+    (hsat : ∃ st ∈ C.db, ∃ w, declared st r.name w r.flavor = true ∧ c10Match w v = true) :
+    ∃ p, lookupEntry C r kVersionExpr post = .ok (.hit p kVersionExpr) ∧
+      p.flavor = r.flavor ∧
+      (∃ st, C.db[p.stack]? = some st ∧ declared st r.name p.version r.flavor = true ∧
+          c10Match p.version v = true ∧
+          ∀ (j : Nat) (st' : Stack), j < p.stack → C.db[j]? = some st' →
+            ¬ (declared st' r.name p.version r.flavor = true ∧ c10Match p.version v = true)) ∧
+      ∀ (j : Nat) (st : Stack) (w : Str), C.db[j]? = some st → declared st r.name w r.flavor = true →
+        c10Match w v = true → c10Cmp w p.version ≤ 0 := by
+  have g : GoodOrdOn ConvName C.ord.cmp := by rw [hord]; exact c10Cmp_good
+  have := C03_expr_entry_is_max C ConvName g hconv r v post hv hex (by rw [hord]; exact hsat)
+  rw [hord] at this
+  exact this
+
+/-- ... and `latest` likewise -/
+theorem C03_latest_entry_is_max_conv (C : Ctx) (hord : C.ord = c10Ord) (hconv : DeclIn ConvName C.dbLatest)
+    (r : Req) (post : List Str) (hl : C.recognized kLatest = true) :
+    (∀ p reason, lookupEntry C r kLatest post = .ok (.hit p reason) →
+      reason = kLatest ∧ p.flavor = r.flavor ∧
+      (∃ st, C.dbLatest[p.stack]? = some st ∧ declared st r.name p.version r.flavor = true) ∧
+      ∀ (j : Nat) (st : Stack) (w : Str), C.dbLatest[j]? = some st → declared st r.name w r.flavor = true →
+        c10Cmp w p.version ≤ 0) ∧
+    (lookupEntry C r kLatest post = .ok .skip →
+      ∀ st ∈ C.dbLatest, ∀ w, declared st r.name w r.flavor = false) ∧
+    lookupEntry C r kLatest post ≠ .ok .abort := by
+  have g : GoodOrdOn ConvName C.ord.cmp := by rw [hord]; exact c10Cmp_good
+  have := C03_latest_entry_is_max C ConvName g hconv r post hl
+  rw [hord] at this
+  exact this
+
+/-- non-vacuity: the example database has conventional version names, and with C10's comparator
+`p >= 2.0` is answered by 2.0 from stack 1 -/
+def exCtxC10 : Ctx := mkCtx c10Ord [sCurrent, sStable, sBeta] exDb .files [sLinux, sGeneric] []
+example : DeclIn ConvName exCtxC10.db := by
+  intro st hst d hd
+  simp only [exCtxC10, mkCtx, exDb, List.mem_cons, List.not_mem_nil, or_false] at hst
+  rcases hst with rfl | rfl
+  · simp only [List.mem_cons, List.not_mem_nil, or_false] at hd
+    subst hd; show VersionCmp.convName _ = true; decide
+  · simp only [List.mem_cons, List.not_mem_nil, or_false] at hd
+    rcases hd with rfl | rfl | rfl <;> (show VersionCmp.convName _ = true; decide)
+example : lookupEntry exCtxC10 (exReq (some [62, 61, 32, 50, 46, 48]) 1) kVersionExpr [sCurrent]
+    = .ok (.hit ⟨v20, sLinux, 1⟩ kVersionExpr) := by decide
 
 /-! ## the flavor loop -/
 
@@ -421,40 +475,70 @@ example : resolve exCtx (exReq (some [62, 61, 32, 50, 46, 48]) 0) false defaultV
 example : resolve exCtx (exReq (some [62, 61, 32, 51, 46, 48]) 0) false defaultVro [sLinux, sGeneric]
     = .ok (some ⟨⟨v30, sGeneric, 1⟩, kVersionExpr, kVersionExpr⟩) := by decide
 
-/-! ## through the cache (D16) -/
+/-! ## through the cache (D16, repaired by 9143b09) -/
 
-/-- Through the cache of a process that rebuilt every stack it reads — or for a request in the native
-flavor, whatever was accepted — `findProductFromVRO` gives the answer it gives through the files.
-(`Mode.mixed`, i.e. `noCache=True` on an instance with loaded caches, included.) -/
-theorem C03_fallback_via_cache_partial (o : Ord) (tags : List Str) (db : Db) (native : Str)
+/-- Through the cache — whatever was accepted or rebuilt, `noCache=True` on a cached instance
+(`Mode.mixed`) included — `findProductFromVRO` gives, for every flavor the process loads (the native
+flavor and its fallbacks), the answer it gives through the files. -/
+theorem C03_cache_view_agrees (o : Ord) (tags : List Str) (db : Db) (loaded : List Str)
     (accepted : List Bool) (r : Req) (vro : List Str) (m : Mode)
-    (hyp : (∀ b ∈ accepted, b = false) ∨ r.flavor = native) :
-    find (mkCtx o tags db m native accepted) r vro = find (mkCtx o tags db .files native accepted) r vro := by
+    (hyp : (∀ b ∈ accepted, b = false) ∨ r.flavor ∈ loaded) :
+    find (mkCtx o tags db m loaded accepted) r vro = find (mkCtx o tags db .files loaded accepted) r vro := by
   rcases hyp with h | h
-  · have := cacheView_all_rebuilt native accepted db h
+  · have := cacheView_all_rebuilt loaded accepted db h
     cases m <;> simp [mkCtx, this]
-  · have hv : ViewsAgree r.flavor (cacheView native accepted db) db := by
-      rw [h]; exact cacheView_agree_native native accepted db
+  · have hv : ViewsAgree r.flavor (cacheView loaded accepted db) db := cacheView_agree h accepted db
     cases m
     · rfl
-    · exact find_view_congr (C := mkCtx o tags db .cache native accepted)
-        (C' := mkCtx o tags db .files native accepted) rfl rfl hv hv vro
-    · exact find_view_congr (C := mkCtx o tags db .mixed native accepted)
-        (C' := mkCtx o tags db .files native accepted) rfl rfl (viewsAgree_refl _ _) hv vro
+    · exact find_view_congr (C := mkCtx o tags db .cache loaded accepted)
+        (C' := mkCtx o tags db .files loaded accepted) rfl rfl hv hv vro
+    · exact find_view_congr (C := mkCtx o tags db .mixed loaded accepted)
+        (C' := mkCtx o tags db .files loaded accepted) rfl rfl (viewsAgree_refl _ _) hv vro
 
-/-- Without that hypothesis the clause is false of the code (D16): `p 3.0` is declared for the
-fallback flavor only; a fresh process that accepts the native-flavor cache of the stack does not see
-it, the files do. -/
+/-- The flavor loop through the cache is the flavor loop through the files: the process loads the
+native flavor and its fallbacks, which are the flavors the loop visits, so whatever stacks had their
+cache accepted or rebuilt the answer is the same — no hypothesis on the load outcome is left. -/
+theorem C03_fallback_via_cache (o : Ord) (tags : List Str) (db : Db) (native : Str) (fallbacks : List Str)
+    (accepted : List Bool) (r : Req) (keep : Bool) (vro : List Str) (m : Mode) :
+    resolve (mkCtx o tags db m (native :: fallbacks) accepted) r keep vro (native :: fallbacks) =
+      resolve (mkCtx o tags db .files (native :: fallbacks) accepted) r keep vro (native :: fallbacks) := by
+  cases m
+  · rfl
+  · exact resolve_view_congr (C := mkCtx o tags db .cache (native :: fallbacks) accepted)
+      (C' := mkCtx o tags db .files (native :: fallbacks) accepted) r keep vro _ rfl rfl
+      (fun f hf => cacheView_agree hf accepted db) (fun f hf => cacheView_agree hf accepted db)
+  · exact resolve_view_congr (C := mkCtx o tags db .mixed (native :: fallbacks) accepted)
+      (C' := mkCtx o tags db .files (native :: fallbacks) accepted) r keep vro _ rfl rfl
+      (fun f _ => viewsAgree_refl f db) (fun f hf => cacheView_agree hf accepted db)
+
+/-- so a native-flavor declaration is preferred, and the fallback used otherwise, through the cache as
+through the files: `C03_native_flavor_first` read through any cache view -/
+theorem C03_native_flavor_first_via_cache (o : Ord) (tags : List Str) (db : Db) (native : Str)
+    (fallbacks : List Str) (accepted : List Bool) (m : Mode) (r : Req) (keep : Bool) (vro : List Str) (h : Hit)
+    (hr : r.already = none)
+    (hf : find (mkCtx o tags db .files (native :: fallbacks) accepted) { r with flavor := native } vro = .ok (some h))
+    (hacc : acceptableB r h = .ok true) :
+    resolve (mkCtx o tags db m (native :: fallbacks) accepted) r keep vro (native :: fallbacks) = .ok (some h) ∧
+      h.prod.flavor = native := by
+  rw [C03_fallback_via_cache]
+  exact C03_native_flavor_first _ r keep vro native fallbacks h hr hf hacc
+
+/-- On the pinned tree (before 9143b09) the clause was false (D16): `p 3.0` is declared for the fallback
+flavor only; a fresh process that accepts the cache of the stack reads it for the native flavor alone
+(`mkCtxPinned`) and does not see the declaration, the files do. -/
 theorem C03_fallback_via_cache_witness :
     let db : Db := [{ decls := [⟨sP, v20, sLinux⟩, ⟨sP, v30, sGeneric⟩], tags := [⟨sCurrent, sP, sGeneric, v30⟩] }]
     let r : Req := { exReq none 0 with flavor := sGeneric }
-    find (mkCtx simpleOrd [sCurrent] db .cache sLinux [true]) r defaultVro = .ok none ∧
-    find (mkCtx simpleOrd [sCurrent] db .files sLinux [true]) r defaultVro
+    find (mkCtxPinned simpleOrd [sCurrent] db .cache sLinux [true]) r defaultVro = .ok none ∧
+    find (mkCtxPinned simpleOrd [sCurrent] db .files sLinux [true]) r defaultVro
       = .ok (some ⟨⟨v30, sGeneric, 0⟩, sCurrent, sCurrent⟩) ∧
-    resolve (mkCtx simpleOrd [sCurrent] db .cache sLinux [true]) { exReq (some v30) 0 with } false defaultVro
+    resolve (mkCtxPinned simpleOrd [sCurrent] db .cache sLinux [true]) { exReq (some v30) 0 with } false defaultVro
       [sLinux, sGeneric] = .ok none ∧
-    resolve (mkCtx simpleOrd [sCurrent] db .files sLinux [true]) { exReq (some v30) 0 with } false defaultVro
-      [sLinux, sGeneric] = .ok (some ⟨⟨v30, sGeneric, 0⟩, kCommandLine, kVersion⟩) := by
+    resolve (mkCtxPinned simpleOrd [sCurrent] db .files sLinux [true]) { exReq (some v30) 0 with } false defaultVro
+      [sLinux, sGeneric] = .ok (some ⟨⟨v30, sGeneric, 0⟩, kCommandLine, kVersion⟩) ∧
+    -- the repaired rule on the same input sees it
+    resolve (mkCtx simpleOrd [sCurrent] db .cache [sLinux, sGeneric] [true]) { exReq (some v30) 0 with } false
+      defaultVro [sLinux, sGeneric] = .ok (some ⟨⟨v30, sGeneric, 0⟩, kCommandLine, kVersion⟩) := by
   decide
 
 /-! ## where `selectVRO` puts the -t and -T tags (default configuration) -/
